@@ -15,6 +15,7 @@ func init() {
 	vRegister("HarnessC10Scalars", HarnessC10Scalars)
 	vRegister("HarnessC10Slices", HarnessC10Slices)
 	vRegister("HarnessC10Maps", HarnessC10Maps)
+	vRegister("HarnessC10SliceChain", HarnessC10SliceChain)
 	vRegister("HarnessC10Structs", HarnessC10Structs)
 }
 
@@ -49,19 +50,21 @@ type vCfg struct {
 
 var c11Types = []string{"b", "i", "i32", "u16", "f", "f32", "s", "pi", "ps", "si", "ss", "af", "m", "st", "pst", "zz"}
 
-// c11Key: "", a digit, "-", a letter, or a huge number
+// c11Key: "", a digit, "-", a letter, a huge number or the largest int
 func c11Key() string {
 	if vParam("c11keys", 0) == 1 {
 		// small concrete keys only
 		return []string{"", "0", "1", "2", "a"}[vChoose(5)]
 	}
-	switch vChoose(5) {
+	switch vChoose(6) {
 	case 0:
 		return ""
 	case 1:
 		return "99999999999999999999"
 	case 2:
 		return "1001"
+	case 3:
+		return "9223372036854775807" // math.MaxInt: index + 1 overflows
 	}
 	s := vStr(1 + vChoose(2))
 	for i := 0; i < len(s); i++ {
@@ -243,6 +246,44 @@ func HarnessC10Slices() {
 	b := mk()
 	vAssert(same(c10Merge(a, b), b), "merging the diff gives the second value, including shrinking slices")
 	vCover("c10 slices: done")
+}
+
+// HarnessC10SliceChain: two diffs applied one after the other to the same
+// decoded value (a -> b -> c): the value a diff is applied to may itself be
+// the result of earlier merges (a slice that shrank keeps spare capacity).
+func HarnessC10SliceChain() {
+	mk := func() vCfg {
+		c := vCfg{ID: "n"}
+		for i, n := 0, vChoose(vParam("chain", 3)+1); i < n; i++ {
+			c.SI = append(c.SI, c10Int())
+		}
+		return c
+	}
+	same := func(a, b vCfg) bool {
+		if len(a.SI) != len(b.SI) {
+			return false
+		}
+		for i := range a.SI {
+			if a.SI[i] != b.SI[i] {
+				return false
+			}
+		}
+		return true
+	}
+	a, b, c := mk(), mk(), mk()
+	got := c10Roundtrip(a)
+	pts, err := DiffPoints(a, b)
+	vAssert(err == nil, "diff succeeds")
+	err = MergePoints("n", pts, &got)
+	vAssert(err == nil && same(got, b), "merging the first diff gives the second value")
+	pts, err = DiffPoints(b, c)
+	vAssert(err == nil, "second diff succeeds")
+	err = MergePoints("n", pts, &got)
+	vAssert(err == nil && same(got, c), "merging a further diff into the merged value gives the third value")
+	if len(b.SI) < len(a.SI) && len(c.SI) > len(b.SI) {
+		vCover("c10 chain: shrink then grow")
+	}
+	vCover("c10 chain: done")
 }
 
 // HarnessC10Maps: string-keyed maps, entries added, changed and removed.
